@@ -109,7 +109,9 @@ func (ps *PeerSet) Remove(peer Peer) bool {
 	defer ps.mtx.Unlock()
 
 	item := ps.lookup[peer.ID()]
-	if item == nil {
+	if item == nil || item.peer != peer {
+		// Either nothing is registered under this ID or it is a different
+		// connection of the same node: that one must stay.
 		// Removing the peer has failed so we set a flag to mark that a removal was attempted.
 		// This can happen when the peer add routine from the switch is running in
 		// parallel to the receive routine of MConn.
